@@ -219,6 +219,28 @@ fn dataurl(inp: &[u8]) -> String {
 	format!("{}\t{}\t{}\t{}\t{}", show(&br), show(&ow), b(fs), b(fstr), is_uri as u8)
 }
 
+// refpct <kind> <ref>: the percent-decoded views of every component reached through the accessors
+macro_rules! one_view {
+	($p:expr) => {{
+		let p = $p;
+		let by = g(|| p.bytes().collect::<Vec<u8>>());
+		let ch = g(|| p.chars().collect::<String>());
+		format!("{}/{}", by.map(|x| hex(&x)).unwrap_or("PANIC".into()), ch.map(|x| hex(x.as_bytes())).unwrap_or("PANIC".into()))
+	}};
+}
+macro_rules! refpct {
+	($v:expr) => {{
+		let v = $v;
+		let au = v.authority();
+		let ui = au.and_then(|a| a.user_info()).map(|x| one_view!(x.as_pct_str())).unwrap_or("~".into());
+		let ho = au.map(|a| one_view!(a.host().as_pct_str())).unwrap_or("~".into());
+		let sg: Vec<String> = v.path().segments().map(|s| one_view!(s.as_pct_str())).collect();
+		let q = v.query().map(|x| one_view!(x.as_pct_str())).unwrap_or("~".into());
+		let fr = v.fragment().map(|x| one_view!(x.as_pct_str())).unwrap_or("~".into());
+		format!("{}\t{}\t{}\t{}\t{}", ui, ho, sg.join(","), q, fr)
+	}};
+}
+
 pub fn run(f: &[&str]) -> Option<String> {
 	Some(match f[0] {
 		"eq" => match f[1] {
@@ -252,6 +274,16 @@ pub fn run(f: &[&str]) -> Option<String> {
 				("uri", "userinfo") => go!(u, userinfo), ("uri", "host") => go!(u, host), ("uri", "segment") => go!(u, segment), ("uri", "query") => go!(u, query), ("uri", "fragment") => go!(u, fragment),
 				("iri", "userinfo") => go!(i, userinfo), ("iri", "host") => go!(i, host), ("iri", "segment") => go!(i, segment), ("iri", "query") => go!(i, query), ("iri", "fragment") => go!(i, fragment),
 				_ => panic!("pct kind"),
+			}
+		}
+		"refpct" => {
+			let inp = unhex(f[2]);
+			match f[1] {
+				"uri" => match u::abs(&inp) { Some(v) => refpct!(v), None => "ERR".into() },
+				"uriref" => match u::rref(&inp) { Some(v) => refpct!(v), None => "ERR".into() },
+				"iri" => match i::abs(&inp) { Some(v) => refpct!(v), None => "ERR".into() },
+				"iriref" => match i::rref(&inp) { Some(v) => refpct!(v), None => "ERR".into() },
+				_ => panic!("kind"),
 			}
 		}
 		"conv" => conv(&unhex(f[1])),
